@@ -10,7 +10,7 @@ P: generated valid modules (nasty identifier pool), modules with injected semant
    satisfies WfDescr (Lean driver) and agrees with the source module on optional members;
    exit != 0 => diagnostic on stderr."""
 import os, re, json, shutil, collections, itertools
-from .. import build, core, genmod, bundle, cgen, trans_reswords
+from .. import build, core, genmod, bundle, cgen, trans_reswords, c10_compile
 
 OPTSETS = [
     ("compound", ["-fcompound-names"]),
@@ -393,6 +393,7 @@ def run(ctx):
     asn1c = build.build_asn1c()
     drv = naming_driver()
     ctx.lean()
+    c10_compile.audit_theorems(ctx)
     ctx.cov["rule"] = ("K: real asn1c_make_identifier/construct_base_name vs model on boundary-exhaustive + random names; "
                        "P: generated valid modules (nasty identifier pool) x 10 option sets and single-fault modules x 2 option sets: "
                        "asn1c exit kind, gcc -std=c99 on every emitted .c, link of exactly the emitted set, g++ -std=gnu++14 on headers, "
@@ -445,6 +446,14 @@ def run(ctx):
         extra = ctx.rng.choice([["-no-gen-OER"], ["-fwide-types"], ["-findirect-choice"], ["-no-gen-PER"], ["-fincludes-quoted"]])
         for on, opts in (("default", []), ("compound", ["-fcompound-names"]), ("other", extra)):
             jobs.append((len(jobs), ("multi", desc), files, names, on, opts, True))
+    # modules built around the tagging rules, for the compiler-model leg (vlib/c10_compile.py)
+    tag_mods = []
+    for i in range(6 if ctx.quick else 32):
+        td = [None, "AUTOMATIC", "IMPLICIT", "EXPLICIT"][i % 4]
+        m = c10_compile.gen_tag_module(ctx.rng, f"G{i}", td)
+        tag_mods.append(m)
+        for on, opts in (OPTSETS[0], OPTSETS[1 + i % 3]):
+            jobs.append((len(jobs), ("tagmod", i), genmod.module_text(m), [n for n, _ in m["types"]], on, opts, True))
     # witnesses of the known findings of this property (replayed through the same pipeline)
     for f in ctx.findings:
         w = f.get("witness", {})
@@ -547,6 +556,13 @@ def run(ctx):
         ctx.cov["evaluations"] += len(wlines)
         if len(ctx.cov["samples"]) < 14:
             ctx.cov["samples"].append({"op": wlines[0][:300], "model": wouts[0]})
+    # ---------------- K (c): the compiler model (Impl/CompileDescr.lean) vs the generated descriptor tables, field by field
+    items = []
+    for r in results:
+        if r.get("dumps") and r["tag"][0] in ("valid", "tagmod"):
+            m = (valid_mods if r["tag"][0] == "valid" else tag_mods)[r["tag"][1]]
+            items.append((m, r["opts"], dict(zip(r["names"], r["dumps"]))))
+    c10_compile.run_compile(ctx, items)
     ctx.cov["evaluations"] += len(results)
     ctx.cov["programs"] = stats["built"]
     ctx.cov["predicate"]["pipeline"] = {"runs": len(results), "outcomes": dict(stats), "failure_classes": len(classes)}
